@@ -2,7 +2,7 @@
    Property theorems only.  bash's operator table (Model/BashRedirSpec.v) is a trusted spec,
    validated by running approved programs under real bash and diffing the file tree. *)
 From DippyV Require Import Base.Str Base.Verdict Base.Tree Gen.Tables Model.Walker Model.Cover Model.Ladder
-  Model.BashRedirSpec Proofs.CoverP Proofs.C02P Proofs.LadderP.
+  Model.BashRedirSpec Model.CdSpec Proofs.CoverP Proofs.C02P Proofs.LadderP Proofs.CdSpecP.
 
 (* the shipped operator tables cover bash's: every write-capable operator, under ANY fd prefix
    (none, digits, {varname}), is checked against the redirect rules unless its target is a
@@ -68,3 +68,40 @@ Example C02_example :
   redirect_check $">&" $"f" $"f" = Some $"f" /\ redirect_check $">&" $"2" $"2" = None /\
   redirect_check $"1>" $"&nogrant" $"&nogrant" = Some $"nogrant" /\ redirect_check $"1>" $"&2-" $"&2-" = None.
 Proof. vm_compute. repeat split; reflexivity. Qed.
+
+(* "earlier cd commands": the directory each element of a list  a op b op c ...  is analysed in, against the
+   operational semantics of and-or lists (Model/CdSpec.v: && / || left-associative, ";" ends the and-or list, "&"
+   runs it in a subshell, a cd either succeeds or leaves the directory alone).  For EVERY run - all exit
+   statuses, all cd failures, all unpredictable moves - an element that bash runs is run in the directory the
+   walker judged it in, unless the walker took that directory for unknown (relative paths then match no
+   absolute rule).  The two hypotheses are about the resolution oracle (core/analyzer.py _resolve_cd_target). *)
+Theorem C02_cd_tracking_sound : forall cdres : str -> str -> str,
+  (forall d1 d2 tgt, is_abs tgt = true -> cdres d1 tgt = cdres d2 tgt) ->
+  (forall d tgt, is_unknown d = true -> is_abs tgt = false -> is_unknown (cdres d tgt) = true) ->
+  forall rt l d, sound_walk cdres rt 0 (cinit d) (init_state (d, false)) l.
+Proof. exact walker_cd_sound. Qed.
+Print Assumptions C02_cd_tracking_sound.
+
+(* the walker's transition is the abstract transition of the specification on classified elements *)
+Theorem C02_cd_transition : forall cdres c a prev t op, snd c = false ->
+  next_state cdres (c, (a, prev)) t op =
+  ((fst (abs_next cdres (fst c, (a, prev)) (classify t) op), false), snd (abs_next cdres (fst c, (a, prev)) (classify t) op)).
+Proof. exact next_state_abs. Qed.
+Print Assumptions C02_cd_transition.
+
+(* the transition of the code before the repairs is refuted by this specification: a cd that fails before ";",
+   a cd sent to the background (both: the next element runs in /jail, judged in /jail/sub) *)
+Theorem C02_cd_legacy_refuted :
+  ~ sound_run_legacy join_dir (rt_all false) 0 (cinit $"/jail") ($"/jail", (false, op_semi)) [(ECd $"sub", op_semi); (EStay, op_semi)] /\
+  ~ sound_run_legacy join_dir (rt_all true) 0 (cinit $"/jail") ($"/jail", (false, op_semi)) [(ECd $"sub", op_bg); (EStay, op_semi)].
+Proof. exact (conj legacy_refuted_failed_cd legacy_refuted_background_cd). Qed.
+Print Assumptions C02_cd_legacy_refuted.
+
+(* non-vacuity:  true || cd sub && x  - the cd is skipped, x runs in /jail, and the walker does not follow it *)
+Example C02_cd_after_or :
+  exists rt l, let st1 := ($"/jail", (false, op_or)) in
+    l = [(EStay, op_or); (ECd $"sub", op_and); (EStay, op_semi)] /\
+    cs_run (cstep join_dir rt 1 (cstep join_dir rt 0 (cinit $"/jail") EStay op_or) (ECd $"sub") op_and) = true /\
+    cs_d (cstep join_dir rt 1 (cstep join_dir rt 0 (cinit $"/jail") EStay op_or) (ECd $"sub") op_and) = $"/jail" /\
+    fst (abs_next join_dir st1 (ECd $"sub") op_and) = UNKNOWN_CWD.
+Proof. exact follow_after_or_refuted. Qed.
